@@ -1834,7 +1834,9 @@ def run(ctx):
                      "equal objects hash equal on every pair of live sets / namespace instances; "
                      "RArgs.ns_meta / ns_ctor / renderable_meta == real class statements; "
                      "RArgsVal.nstep_op (heap of namespace instances) and RArgsVal.spec_nop (field-by-field rule) == real "
-                     "ArgsNamespace constructor / update / RenderArgs.update / attribute reads over the value universe",
+                     "ArgsNamespace constructor / update / RenderArgs.update / attribute reads over the value universe; "
+                     "RArgsIntern.run code_proto (small-step interning protocol) and RArgsInternTie.ispec == two real interleaved "
+                     "first-time requests for the default set of a class, one parked at every line event",
         "evaluations": len(cases),
         "distinct_nontrivial": len(distinct) + len(ndistinct) + len(sdistinct) + len(idistinct),
         "rule": "corpus + generated programs: forest of 2-8 render classes (depth <= 4, branching <= 3, chains / bushy / random), "
@@ -1861,7 +1863,15 @@ def run(ctx):
                 "after it) and giving it to a known field by position, keyword and update.  After every operation: every live instance "
                 "(as_dict values, attribute values, hash; exact types, NaN-like objects by identity), == of the result with every instance, "
                 "get_fields() of every class.  Non-trivial namespace program: some call carries an unknown keyword and some call is "
-                "accepted; distinct by program hash (counted in distinct_nontrivial).",
+                "accepted; distinct by program hash (counted in distinct_nontrivial).  "
+                "INTERLEAVED FIRST REQUESTS for the default set of one class (type intern): chains of 1-3 fresh render classes (11 patterns of "
+                "namespace owners), the parked request RenderArgs(cls) / RenderArgs(cls, None) / RenderArgs(cls, RenderArgs(parent)), the complete "
+                "request made in the window one of those or cls(...).render() with no render arguments (quick: every chain pattern with a "
+                "seed-rotated request pair; thorough: all 11 x 12), thread 0 parked at EVERY line event it executes inside term_image during its "
+                "request (fresh chain per position), the second request's set inspected inside the window, thread 0 released, one more request "
+                "afterwards; observed per position: class in _interned / object built at the park point, usability and held defaults of the "
+                "three sets, identities, ==/hash.  Non-trivial position: both requests returned usable sets that are different objects (the "
+                "window between allocation and publication); distinct by (scenario, position).",
         "samples": [describe(c) for c in (progs[:1] + progs[len(CORPUS):len(CORPUS) + 3])] + [describe(c) for c in cases if c["type"] == "stmt"][:2]
                    + [describe(c) for c in cases if c["type"] == "nsprog"][len(NS_CORPUS):len(NS_CORPUS) + 2],
         "histogram": hist,
@@ -1882,6 +1892,8 @@ def run(ctx):
             "ArgsNamespace.update builds type(self); namespace subclasses are single-inheritance chains below the associated class that add methods only",
             "RenderArgs objects are only created through the class call (type.__call__ = __new__ then __init__), never by calling __new__/__init__ directly",
             "hash is modelled as the tuple handed to hash(): equal tuples hash equal in CPython",
+            "interning protocol: the steps look-up/allocate, test, build, data-init, publish are each atomic (each is one dict/attribute "
+            "operation under the GIL, or thread-local); all threads ask for the default set of ONE class; what a built set holds is abstract",
             "namespace programs over values: the universe is {int, bool, integral float, None, Ellipsis, a table of distinct strings, (), "
             "NaN-like objects}; Python's == on it is written out in RArgsVal.py_eq (bool/int/float compare by numeric value, a NaN-like "
             "object is unequal to everything, itself included; the operator has no identity shortcut) and hash is modelled by the key "
@@ -1894,5 +1906,8 @@ def run(ctx):
             "namespace subclasses are created through the namespace metaclass (as a class statement does); "
             "namespace programs: the shared default instance of a class is obtained as RenderArgs(R)[R]; observed values are classified by "
             "exact type and NaN-like objects by identity against the table of objects the driver made",
+            "interleaved requests: sys.settrace line events of one thread as pre-emption points (CPython switches threads between bytecodes; "
+            "line granularity, C calls are not positions), threading.Event hand-over (no sleeps); reads RenderArgs._interned and the parked "
+            "frame's `self` for the model-side comparison",
         ],
     }
